@@ -619,6 +619,52 @@ def bits_axioms(ts):
     return ax
 
 
+def subst(t, mapping, memo=None):
+    """replace variables (by term id) according to mapping {var term id: replacement}"""
+    if memo is None:
+        memo = {}
+    if not is_t(t):
+        return t
+    if t.id in memo:
+        return memo[t.id]
+    if t.id in mapping:
+        r = mapping[t.id]
+    elif t.op in ("var", "const"):
+        r = t
+    else:
+        args = tuple(subst(a, mapping, memo) if is_t(a) else a for a in t.args)
+        if all(x is y for x, y in zip(args, t.args)):
+            r = t
+        else:
+            r = rebuild(t.op, args, t.sort)
+    memo[t.id] = r
+    return r
+
+
+def rebuild(op, args, sort):
+    if op in ("fadd", "fsub", "fmul", "fdiv", "frem", "fmin", "fmax"):
+        return fbin(op, *args)
+    if op in ("fneg", "fabs", "fsqrt", "fround", "ffloor", "fceil", "ftrunc"):
+        return fun(op, *args)
+    if op in ("flt", "fle", "feq"):
+        return fcmp(op, *args)
+    if op == "and":
+        return band(*args)
+    if op == "or":
+        return bor(*args)
+    if op == "not":
+        return bnot(args[0])
+    if op == "ite":
+        return ite(*args)
+    if op in ("iadd", "isub", "imul"):
+        return ibin(op, *args)
+    if op in ("ilt", "ile", "ieq"):
+        return icmp(op, *args)
+    if op == "i2f":
+        return i2f(args[0])
+    return mk(op, args, sort)
+
+
 def free_vars(ts):
     seen, out, stack = set(), [], list(ts)
     while stack:
